@@ -25,13 +25,30 @@ PY = "/venv/bin/python"
 
 
 def scratch_with_patch(patch):
+    """Scratch copy of /repo's HEAD with the patch applied.  A plain `git apply` is tried first; when the
+    repository has moved on since the defect was written (later fix: commits touching the same lines) the
+    patch is merged three-way in a temporary git worktree (removed afterwards)."""
     d = tempfile.mkdtemp(prefix="skm_seed_", dir="/var/tmp")
     dst = os.path.join(d, "repo")
     shutil.copytree("/repo", dst, ignore=shutil.ignore_patterns(".git", "__pycache__", "docs", "examples"))
     p = subprocess.run(["git", "apply", "--whitespace=nowarn", os.path.abspath(patch)], cwd=dst, capture_output=True, text=True)
-    if p.returncode != 0:
+    if p.returncode == 0:
+        return d, dst
+    shutil.rmtree(dst, ignore_errors=True)
+    wt = os.path.join(d, "wt")
+    subprocess.run(["git", "-C", "/repo", "worktree", "add", "-q", "--detach", wt, "HEAD"], check=True, capture_output=True)
+    try:
+        q = subprocess.run(["git", "apply", "--3way", "--whitespace=nowarn", os.path.abspath(patch)], cwd=wt, capture_output=True, text=True)
+        conflict = q.returncode != 0 or "<<<<<<<" in "".join(open(os.path.join(wt, f)).read() for f in subprocess.run(["git", "diff", "--name-only"], cwd=wt, capture_output=True, text=True).stdout.split() if os.path.exists(os.path.join(wt, f)))
+        if conflict:
+            raise RuntimeError("patch does not apply, also not three-way: " + (p.stderr + q.stderr)[-400:])
+        shutil.copytree(wt, dst, ignore=shutil.ignore_patterns(".git", "__pycache__", "docs", "examples"))
+    finally:
+        subprocess.run(["git", "-C", "/repo", "worktree", "remove", "--force", wt], capture_output=True)
+        subprocess.run(["git", "-C", "/repo", "worktree", "prune"], capture_output=True)
+    if not os.path.isdir(dst):
         shutil.rmtree(d, ignore_errors=True)
-        raise RuntimeError("patch does not apply: " + p.stderr[-400:])
+        raise RuntimeError("patch does not apply")
     return d, dst
 
 
